@@ -33,14 +33,14 @@ Definition pre_labels : list (str * N) :=
 Definition post_labels : list (str * N) := [(ps "post", 0); (ps "rev", 0); (ps "r", 0)]%N.
 Definition dev_labels : list (str * N) := [(ps "dev", 0)]%N.
 
-(* [sep] label [sep] [N]: None when the label is not there (nothing is consumed then) *)
+(* [sep] label [sep] [N]: None when the label is not there (nothing is consumed then); the separator after the
+   label is taken whether or not a number follows, as the regular expression of PEP 440 (Appendix B) does *)
 Definition tagged (names : list (str * N)) (s : str) : option (N * N * str) :=
   match label names (skip_sep s) with
-  | Some (k, r) => let '(n, r') := opt_number (skip_sep r) in
-                   (* a separator after the label must be followed by the number *)
-                   match number (skip_sep r) with
+  | Some (k, r) => let r1 := skip_sep r in
+                   match number r1 with
                    | Some (n, r') => Some (k, n, r')
-                   | None => Some (k, 0%N, r)
+                   | None => Some (k, 0%N, r1)
                    end
   | None => None
   end.
